@@ -31,6 +31,20 @@ impl SerdeParser {
         result
     }
 
+    /// rename_all argument of the command macro: #[tauri::command(rename_all = "snake_case")]
+    pub fn parse_command_macro_rename_all(&self, attrs: &[Attribute]) -> Option<RenameRule> {
+        attrs
+            .iter()
+            .filter(|attr| {
+                attr.path()
+                    .segments
+                    .last()
+                    .is_some_and(|segment| segment.ident == "command")
+            })
+            .filter_map(|attr| syn::parse2::<syn::MetaList>(attr.meta.to_token_stream()).ok())
+            .find_map(|list| self.parse_rename_all(&list.tokens.to_string()))
+    }
+
     /// Parse field-level serde attributes (e.g., rename, skip)
     pub fn parse_field_serde_attrs(&self, attrs: &[Attribute]) -> SerdeFieldAttributes {
         let mut result = SerdeFieldAttributes {
